@@ -84,6 +84,11 @@ pub struct Rig {
     pub history: Vec<String>,
     /// FDL states (probe) the station was observed in
     pub states: std::collections::BTreeSet<(&'static str, u8)>,
+    /// debugging aid for replays (PBMON_TRACE_POLLS=1): print the probe after every step
+    pub trace_polls: bool,
+    /// times at which the probe showed the station entering UseToken (using, not claiming, the token)
+    pub use_token_entries: Vec<Us>,
+    last_state: &'static str,
 }
 
 impl Rig {
@@ -103,6 +108,9 @@ impl Rig {
             seen: 0,
             history: Vec::new(),
             states: Default::default(),
+            trace_polls: std::env::var("PBMON_TRACE_POLLS").is_ok(),
+            use_token_entries: Vec::new(),
+            last_state: "",
         }
     }
 
@@ -145,7 +153,14 @@ impl Rig {
                 return;
             }
             let p = self.world.stations[0].fdl.verif_probe();
+            if self.trace_polls {
+                eprintln!("  @{} {:?}", self.world.now, p);
+            }
             self.states.insert((p.state, p.sub));
+            if p.state == "UseToken" && self.last_state != "UseToken" && self.last_state != "AwaitDataResponse" {
+                self.use_token_entries.push(self.world.now);
+            }
+            self.last_state = p.state;
         }
         if self.world.now < t {
             // nothing scheduled in between: jump
